@@ -293,8 +293,15 @@ def run_check(prop, module, repo, tier, evidence_dir=None, replay_dir=None, quie
         if hasattr(module, 'MINIMUM') and not ctx.findings:
             # vacuity guard: a rule that matched fewer sites than confirmed by
             # hand must not pass silently (skipped when findings are reported)
+            # a rule that examined nothing passes vacuously: that is an error.  The
+            # counts confirmed by hand on the pinned tree are kept for the record (a
+            # restructured tree legitimately has fewer or more instances): falling
+            # below them is noted in the evidence, falling to zero fails the check
             for rule, mn in module.MINIMUM.items():
-                ctx.expect(rule, mn)
+                ctx.expect(rule, min(mn, 1))
+                if ctx.instances.get(rule, 0) < mn:
+                    ctx.note('%s examined %d instance(s); %d were confirmed by hand on the '
+                             'pinned tree' % (rule, ctx.instances.get(rule, 0), mn))
         known = load_known()
         new = []
         for f in ctx.findings:
